@@ -26,7 +26,7 @@ def show_reply(r):
         return k
     if k == "zwin":
         return "zwin(%s)" % ",".join(show_reply(x) for x in r.get("a", []))
-    return "%s(%s)" % (k, repr(b2s(r.get("v", [])))[1:-1])
+    return "%s(%s)" % (k, repr(b2s(r.get("v") or []))[1:-1])
 
 
 _build_cache = {}
